@@ -11,3 +11,8 @@ rule_reg() { echo "each run: VERIF_SEED-derived tape decides 2-4 codec tasks, 0-
 assume_reg() { echo "$COMMON_ASSUME|re-registering a CID with size 0 and negative sizes are kept out of judged histories (DESIGN.md C07/R1)|field ranges and bit layouts in /verif/spec are transcribed from LoRaWAN 1.0.4/1.1; values outside the ranges only need lossless-or-error"; }
 real_reg() { echo "$COMMON_REAL|RegisterProprietaryMACCommand, GetMACPayloadAndSize, MACCommand.Marshal/UnmarshalBinary, DecodeFOptsToMACCommands, DecodeFRMPayloadToMACCommands, PHYPayload.Marshal/UnmarshalBinary"; }
 stub_reg() { echo "operator and codec tasks (workload)|model registry, command-stream splitter, bit-layout decoder (oracles, /verif/spec)|porcupine v1.3.0 (linearizability checker)"; }
+
+rule_iso() { echo "each run: the tape decides 2-4 worker tasks, 4-31 packets (sessions 1.0/1.1, both directions, frame factory), which memory each packet lands in (one reusable receive buffer, cap-limited or not, or a slot of a pool arena with neighbours), binary or base64 decode, which worker processes it and when (the scheduler decides whether the receive task has already overwritten / scribbled the memory), read-only sharing of one frame between two workers, exported crypto on arena windows ending at a neighbour's region, decode-into-used-value experiments over every decodable type of the root and applayer packages, band mutations next to an observer instance, and 0-4 proprietary registrations; a run is non-trivial when a worker processed a frame after its receive memory had been reused; distinct = distinct trace hash"; }
+assume_iso() { echo "$COMMON_ASSUME|isolation oracles are differential against the same library call on private data (deep structural snapshots via reflection)|Validate* is allowed to be preceded by the documented assignment of the full FCnt"; }
+real_iso() { echo "$COMMON_REAL|PHYPayload Unmarshal/Marshal Binary/Text/JSON, Validate*DataMIC, Encrypt/Decrypt FOpts/FRMPayload, exported EncryptFRMPayload/EncryptFOpts, DecryptJoinAcceptPayload, all UnmarshalBinary methods of root and applayer packages, band.GetConfig/AddChannel/Enable/Disable/getters, RegisterProprietaryMACCommand"; }
+stub_iso() { echo "receive loop, buffer pool, worker pool, operator (workload)|keystream model (spec) for the crypto windows"; }
